@@ -92,7 +92,9 @@ CHECKS = {
         "component of the wrapped env vs a NumPy reference (mapped action reaches dynamics, reward and info; declared signal only; "
         "advertised spaces; pass-through of mask/flags/info/name/unwrapped); rescale corner laws; every documented wrapper is "
         "constructed and stepped; TimeLimit histories (incl. nested limits) in lock-step with the reference; GymToLerax/GymnaxToLerax "
-        "vs twin envs, LeraxToGym/LeraxToGymnax vs the lerax env's own components (bare and time-limited).",
+        "vs twin envs (Gymnax adapters built with drawn non-default episode limits), LeraxToGym/LeraxToGymnax vs the lerax env's own "
+        "components (bare and time-limited), and reset(seed) on a used adapter restarting the episode a fresh adapter starts "
+        "(small seeds incl. 0).",
         design="DESIGN.md §4 C13",
         note="Trusted: vlib/wrapref.py; Gymnasium/Gymnax determinism given seed/key. 16 mutants all caught.",
     ),
@@ -101,8 +103,9 @@ CHECKS = {
         text="(a) Hypothesis machine over LoggingCallbackStepState.next histories vs an accumulator model; (b) reset()+iteration() of "
         "PPO/A2C/REINFORCE/DQN with LoggingCallback and a recording backend: delivered scalars vs per-env EMAs of environment reward "
         "sums/lengths recomputed from the MDP tables, one record per iteration in order with cumulative steps; (c) average_reward "
-        "(while/scan variants, caps): n*result must decompose into n interpreter-computed episode returns, every start state occurs "
-        "over keys, DP range bounds for stochastic policies.",
+        "(while/scan variants, caps; table policies and a Q-table policy whose greedy action depends on its own step counter): n*result "
+        "must decompose into n interpreter-computed episode returns, every start state occurs over keys, DP range bounds for "
+        "stochastic policies.",
         design="DESIGN.md §4 C19",
         note="Trusted: vlib/mdp.py interpreter; EMA convention of the LoggingCallback docstring. 12 mutants (see mutants/C19.json).",
     ),
@@ -168,7 +171,8 @@ CHECKS = {
         "probabilities vs float64 renormalised softmax, -inf log-prob, allowed mode, 128 samples all allowed and likely allowed "
         "actions seen; MultiCategorical masks (flat and sequence), Bernoulli masks; end-to-end through MLPActorCriticPolicy "
         "(Discrete/MultiDiscrete/MultiBinary, output layers scaled up to 3000x) and MLPQPolicy (epsilon 0/0.05/0.25/1): key-less == "
-        "greedy mode and deterministic, keyed samples allowed, reported log-prob == evaluate_action's, non-greedy frequency <= "
+        "greedy mode and deterministic, keyed samples allowed, reported log-prob == evaluate_action's, joint frequencies of 1024 sampled "
+        "MultiDiscrete/MultiBinary action vectors vs exp(reported log-prob) (exact binomial tail < 1e-12), non-greedy frequency <= "
         "epsilon + 6 sigma with an independent 20000-key confirmation.",
         design="DESIGN.md §4 C16",
         note="Trusted: float64 softmax; JAX PRNG. 13 mutants all caught.",
@@ -204,7 +208,8 @@ CHECKS = {
         "generated finite MDPs; (b2) through the real iteration() with the buffer captured from ctx.locals: replacing only env j's "
         "start state must leave every field of every other environment's slice bit-identical (incl. advantages, returns, carried "
         "state), on-policy and for DQN's per-env replay buffers; (b3) vectorised DQN collection acts with the current online policy; "
-        "(b4) N environments started in the same state under a uniform policy never run in lock-step through reset()/iteration().",
+        "(b4) N environments started in the same state under a uniform policy never run in lock-step through reset()/iteration(); "
+        "(a') classic-control environments rebuilt with every numeric constructor option passed as a plain Python float / list.",
         design="DESIGN.md §4 C12",
         note="Trusted: float32 reassociation tolerance: 1e-5/1e-6 element-wise for classic control; for MuJoCo/G1 only the physical state and task bookkeeping are compared, norm-wise per leaf (2e-3; 5e-2 across one frame-skipped contact step) because float32 contact-solver internals differ by percents between the vmapped and the single program. Single transitions only.",
     ),
@@ -223,7 +228,7 @@ CHECKS = {
     ),
     "C20": dict(
         technique="property-based testing (Hypothesis) of the pure gait helpers incl. 5000-step histories; range/identity oracles over vmapped initial() and rollouts of the three G1 tasks (process pool)",
-        text="Gait helpers on generated phases (incl. +-pi and +-1 ulp), frequencies 0-4 Hz, dt in {0.02, 0.04}: range, increment "
+        text="Gait helpers on generated phases (incl. +-pi and +-1 ulp), frequencies 0-120 Hz (also several cycles per control step), dt in {0.02, 0.04, 0.1}: range, increment "
         "2*pi*f*dt (mod 2*pi), half-cycle offset, over up to 5000 steps; desired foot height range, zero at -pi, peak at 0, monotone "
         "halves, continuity. Environments: vmapped initial() over 48 (quick) / 1024 (thorough) keys per task and range configuration: "
         "every randomised model field inside its configured range, every other model leaf bit-identical to the nominal model, command "
